@@ -94,7 +94,7 @@ def run_one(scenario):
         body = l.split(None, 1)[1] if " " in l else ""
         if body.startswith("H "):
             body = body[2:]
-        if body.split(" ")[0] in ("alloc", "free", "spin", "yield_now", "drop-action") or body.startswith("sys sigaction"):
+        if body.split(" ")[0] in ("alloc", "free", "spin", "yield_now", "drop-action") or body == "yield" or body.startswith("sys sigaction"):
             continue   # registry steps of an add_signal
         w = l.split()
         if len(w) > 1 and w[1] == "ret" and w[2] == "done":
